@@ -15,6 +15,7 @@ import (
 
 	"verif/harness/cmapref"
 	"verif/harness/ev"
+	"verif/harness/iofault"
 	"verif/harness/t1gen"
 	"verif/harness/t1ref"
 )
@@ -67,7 +68,10 @@ func multiset(a []string) string {
 }
 
 func check(c *c07case) string {
-	d, err := postscript.ReadCMap(bytes.NewReader(c.Data))
+	// the concrete type of the reader is a function of the file (bytes.Reader,
+	// strings.Reader, bufio.Reader, a reader without extra methods, one that
+	// delivers its last data together with io.EOF ...)
+	d, err := postscript.ReadCMap(iofault.NewReader(iofault.ReaderKinds[len(c.Data)%len(iofault.ReaderKinds)], c.Data))
 	if c.Fault != "" {
 		if err == nil {
 			return fmt.Sprintf("a file with the fault %q is accepted (CMapName %v)", c.Fault, d["CMapName"])
